@@ -9,6 +9,7 @@ import (
 	"encoding/json"
 	"flag"
 	"fmt"
+	"math/bits"
 	"os"
 	"sort"
 	"strings"
@@ -149,6 +150,167 @@ type rwRec struct {
 	Panic string    `json:"panic,omitempty"`
 }
 
+// packed returns copies of the hashes laid out as sub-slices of ONE buffer (cap reaches to the end of the buffer): code that
+// appends into its arguments corrupts the next hash.
+func packed(hs [][]byte) ([][]byte, []byte) {
+	buf := []byte{}
+	for _, h := range hs {
+		buf = append(buf, h...)
+	}
+	out := make([][]byte, len(hs))
+	off := 0
+	for i, h := range hs {
+		out[i] = buf[off : off+len(h)]
+		off += len(h)
+	}
+	return out, buf
+}
+
+type seqProof struct {
+	QIds  []int    `json:"qids"`
+	Err   bool     `json:"err"`
+	Idxs  []uint64 `json:"idxs"`
+	Sibs  []string `json:"sibs"`
+	Ver   bool     `json:"ver"`
+	Panic string   `json:"panic,omitempty"`
+}
+type seqRW struct {
+	Idx   int       `json:"idx"`
+	W     *[]string `json:"w"`
+	Root  *string   `json:"root"`
+	Ver   bool      `json:"ver"`
+	Panic string    `json:"panic,omitempty"`
+}
+type seqRec struct {
+	K      string     `json:"k"`
+	Gen    string     `json:"gen"`
+	Seed   int        `json:"seed"`
+	Ids    []int      `json:"ids"`
+	Ops    [][3]int   `json:"ops"` // [0,id,0] append leaf(id); [1,pos,id] Update(leaf index of pos, leaf(id))
+	Qs     [][]int    `json:"qs"`  // query sets (value ids) to prove after the script
+	RWIdx  []int      `json:"rwidx"`
+	St     st         `json:"st"`
+	RL     *st        `json:"rl"`
+	Proofs []seqProof `json:"proofs"`
+	RWs    []seqRW    `json:"rws"`
+	Panic  string     `json:"panic,omitempty"`
+}
+
+func leafIdx(n uint64, pos int) uint64 {
+	h := uint64(1)
+	if n > 1 {
+		h = uint64(bits.Len64(n-1)) + 1
+	}
+	return 1<<h | uint64(pos)
+}
+
+// seqCase runs a script on a tree built from explicit leaf ids (duplicates allowed), then observes state, proofs and
+// right witnesses.
+func seqCase(gen string, seed int, ids []int, ops [][3]int, qs [][]int, rwidx []int) (rec seqRec) {
+	rec = seqRec{K: "seq", Gen: gen, Seed: seed, Ids: ids, Ops: ops, Qs: qs, RWIdx: rwidx, Proofs: []seqProof{}, RWs: []seqRW{}, St: st{P: []string{}}}
+	if rec.Ops == nil {
+		rec.Ops = [][3]int{}
+	}
+	pending(rec)
+	defer func() {
+		if p := recover(); p != nil {
+			rec.Panic = "setup:" + fmt.Sprint(p)
+		}
+	}()
+	db := newMem()
+	t := rmt.NewRegularMerkleTree(db)
+	cur := []int{}
+	for _, id := range ids {
+		if err := t.Append(leaf(seed, id)); err != nil {
+			rec.Panic = "setup:Append:" + err.Error()
+			return rec
+		}
+		cur = append(cur, id)
+	}
+	for _, op := range ops {
+		var err error
+		if op[0] == 0 {
+			err = t.Append(leaf(seed, op[1]))
+			cur = append(cur, op[1])
+		} else {
+			err = t.Update([]uint64{leafIdx(t.Size(), op[1])}, [][]byte{leaf(seed, op[2])})
+			cur[op[1]] = op[2]
+		}
+		if err != nil {
+			rec.Panic = fmt.Sprintf("setup:op %v: %v", op, err)
+			return rec
+		}
+	}
+	rec.St = stOf(t)
+	if rl, err := rmt.NewRegularMerkleTreeWithPastData(db); err == nil {
+		s := stOf(rl)
+		rec.RL = &s
+	}
+	root := t.Root()
+	for _, q := range qs {
+		sp := seqProof{QIds: q, Idxs: []uint64{}, Sibs: []string{}}
+		qh := make([][]byte, len(q))
+		for i, id := range q {
+			qh[i] = leafHash(leaf(seed, id))
+		}
+		var proof *rmt.Proof
+		var err error
+		if p := try(func() { proof, err = t.GenerateProof(qh) }); p != "" || err != nil {
+			sp.Err, sp.Panic = true, p
+			rec.Proofs = append(rec.Proofs, sp)
+			continue
+		}
+		sp.Idxs, sp.Sibs = proof.Idxs, hxs(proof.SiblingHashes)
+		if p := try(func() { sp.Ver = rmt.VerifyProof(qh, proof, root) }); p != "" {
+			sp.Panic = "VerifyProof:" + p
+		}
+		// the same verification with all hashes laid out in shared buffers
+		pq, bq := packed(qh)
+		ps, bs := packed(proof.SiblingHashes)
+		bq0, bs0 := append([]byte{}, bq...), append([]byte{}, bs...)
+		var v2 bool
+		p2 := try(func() {
+			v2 = rmt.VerifyProof(pq, &rmt.Proof{Size: proof.Size, Idxs: proof.Idxs, SiblingHashes: ps}, root)
+		})
+		if p2 != "" || v2 != sp.Ver || hx32(bq) != hx32(bq0) || hx32(bs) != hx32(bs0) {
+			sp.Panic = "alias:VerifyProof on hashes that are sub-slices of one buffer differs or changes the buffer " + p2
+		}
+		rec.Proofs = append(rec.Proofs, sp)
+	}
+	for _, idx := range rwidx {
+		rw := seqRW{Idx: idx}
+		var w [][]byte
+		var err error
+		if p := try(func() { w, err = t.GenerateRightWitness(uint64(idx)) }); p != "" || err != nil {
+			rw.Panic = p
+			rec.RWs = append(rec.RWs, rw)
+			continue
+		}
+		ws := hxs(w)
+		rw.W = &ws
+		part := rmt.NewRegularMerkleTree(newMem())
+		for j := 0; j < idx && j < len(cur); j++ {
+			_ = part.Append(leaf(seed, cur[j]))
+		}
+		ap, bap := packed(part.AppendPath())
+		pw, bw := packed(w)
+		bap0, bw0 := append([]byte{}, bap...), append([]byte{}, bw...)
+		var r1 []byte
+		if p := tryFor(3*time.Second, func() { r1 = rmt.CalculateRootFromRightWitness(uint64(idx), ap, pw) }); p != "" {
+			rw.Panic = "CalculateRootFromRightWitness:" + p
+		} else {
+			s := hx32(r1)
+			rw.Root = &s
+			rw.Ver = rmt.VerifyRightWitness(uint64(idx), deepCopy(part.AppendPath()), deepCopy(w), root)
+			if hx32(bap) != hx32(bap0) || hx32(bw) != hx32(bw0) {
+				rw.Panic = "alias:CalculateRootFromRightWitness changed its arguments' buffer"
+			}
+		}
+		rec.RWs = append(rec.RWs, rw)
+	}
+	return rec
+}
+
 type rwxRec struct {
 	K     string   `json:"k"`
 	Idx   uint64   `json:"idx"`
@@ -258,6 +420,17 @@ func appendRun(o *hx.Out, seed int, sizes []int) {
 				o.Put(appRec{K: "app", Seed: seed, N: n - 1, St: stOf(t), PK: 3, Pst: st{P: []string{}}, Batch: "", PredMut: true,
 					Panic: "predmut:CalculateRootFromAppendPath changed its caller's append path"})
 				return
+			}
+			// ... and with an append path whose entries are sub-slices of one buffer
+			if pp, buf := packed(t.AppendPath()); pk == 1 {
+				buf0 := append([]byte{}, buf...)
+				var p2 *rmt.RootWithAppendPath
+				pn := try(func() { p2 = rmt.CalculateRootFromAppendPath(v, pp, t.Size()) })
+				if pn != "" || p2 == nil || hx32(p2.Root) != pst.R || hx32(buf) != hx32(buf0) {
+					o.Put(appRec{K: "app", Seed: seed, N: n - 1, St: stOf(t), PK: 3, Pst: st{P: []string{}}, Batch: "", PredMut: true,
+						Panic: "predmut:CalculateRootFromAppendPath on an append path laid out in one buffer gives another root or changes the buffer"})
+					return
+				}
 			}
 			if err := t.Append(v); err != nil {
 				o.Put(appRec{K: "app", Seed: seed, N: n, St: stOf(t), PK: 3, Pst: st{P: []string{}}, Batch: "", Panic: "Append:" + err.Error()})
@@ -565,6 +738,18 @@ func replay(o *hx.Out, path string, r *hx.Rng) {
 			AP   []string `json:"ap"`
 			RW   []string `json:"rw"`
 		}
+		var kind struct {
+			K string `json:"k"`
+		}
+		_ = json.Unmarshal([]byte(line), &kind)
+		if kind.K == "seq" {
+			var q seqRec
+			if err := json.Unmarshal([]byte(line), &q); err != nil {
+				panic(err)
+			}
+			o.Put(seqCase(q.Gen, q.Seed, q.Ids, q.Ops, q.Qs, q.RWIdx))
+			continue
+		}
 		if err := json.Unmarshal([]byte(line), &g); err != nil {
 			panic(err)
 		}
@@ -600,6 +785,7 @@ func main() {
 	pmax := flag.Int("pmax", 70, "max tree size for random proof/update cases")
 	nupd := flag.Int("nupd", 120, "random update cases")
 	rwmax := flag.Int("rwmax", 40, "all witness positions for sizes 0..rwmax")
+	nseq := flag.Int("nseq", 40, "random update/append scripts over lists with duplicate leaves")
 	nrwx := flag.Int("nrwx", 60, "right-witness reconstructions on arbitrary arguments")
 	flag.Parse()
 	r := hx.NewRng(hx.SeedFromEnv())
@@ -685,6 +871,80 @@ func main() {
 			}
 		}
 		o.Put(updCase(seed, n, randUps(r, n, 1+r.Intn(5))))
+	}
+	// (f) lists with duplicate leaves / scripts of updates and appends, then proofs and witnesses
+	allIdx := func(n int) []int {
+		r := make([]int, n+1)
+		for i := range r {
+			r[i] = i
+		}
+		return r
+	}
+	singles := func(ids []int) [][]int {
+		seen := map[int]bool{}
+		qs := [][]int{}
+		for _, id := range ids {
+			if !seen[id] {
+				seen[id] = true
+				qs = append(qs, []int{id})
+			}
+		}
+		return qs
+	}
+	for _, ids := range [][]int{{1, 1}, {1, 1, 3}, {1, 2, 2}, {1, 1, 1, 1}, {1, 1, 1, 1, 1}, {1, 2, 1, 2}, {1, 2, 1, 2, 1, 2}, {1, 2, 3, 4, 1, 2, 3, 4},
+		{1, 1, 2, 2, 3, 3, 4}, {5, 1, 1, 6, 7, 7, 8, 9, 9}, {1, 2, 3, 3, 3, 3, 4, 4, 5, 6, 6}} {
+		qs := append(singles(ids), []int{ids[0], ids[0]}, []int{ids[0], ids[len(ids)-1]}, []int{ids[len(ids)-1], ids[0], ids[len(ids)/2]})
+		o.Put(seqCase("duplicates", seed, ids, nil, qs, allIdx(len(ids))))
+		// and one more leaf appended after the twins, equal to the last one
+		o.Put(seqCase("duplicates+append", seed, ids, [][3]int{{0, ids[len(ids)-1], 0}, {0, 77, 0}}, append(singles(ids), []int{77}), allIdx(len(ids)+2)))
+	}
+	// Update of the last unpaired leaf (n = 1 mod 4), Append, proofs/witnesses; then a second Update
+	for _, n := range []int{5, 9, 13, 17, 3, 7} {
+		ids := make([]int, n)
+		for i := range ids {
+			ids[i] = 10 + i
+		}
+		after := append(append([]int{}, ids[:n-1]...), 200, 201)
+		o.Put(seqCase("update-last+append", seed, ids, [][3]int{{1, n - 1, 200}, {0, 201, 0}}, singles(after), allIdx(n+1)))
+		after2 := append([]int{}, after...)
+		after2[n-1] = 202
+		o.Put(seqCase("update-last+append+update", seed, ids, [][3]int{{1, n - 1, 200}, {0, 201, 0}, {1, n - 1, 202}, {0, 203, 0}}, singles(append(after2, 203)), allIdx(n+2)))
+	}
+	// Update that makes a leaf equal to the append-path leaf, then Append
+	o.Put(seqCase("update-to-duplicate+append", seed, []int{1, 2, 3}, [][3]int{{1, 0, 3}, {0, 4, 0}}, [][]int{{2}, {4}, {3}, {2, 4}}, allIdx(4)))
+	o.Put(seqCase("update-to-duplicate+append", seed, []int{1, 2, 3, 4, 5, 6, 7}, [][3]int{{1, 2, 7}, {0, 8, 0}, {1, 0, 8}, {0, 9, 0}}, [][]int{{2}, {4}, {5}, {6}, {9}, {2, 9}}, allIdx(9)))
+	// random scripts over a small alphabet (many duplicates); values that an Update has overwritten are not queried
+	for i := 0; i < *nseq; i++ {
+		n := 1 + r.Intn(14)
+		ids := make([]int, n)
+		for j := range ids {
+			ids[j] = 1 + r.Intn(4)
+		}
+		cur := append([]int{}, ids...)
+		gone := map[int]bool{}
+		ops := [][3]int{}
+		for j := r.Intn(5); j > 0; j-- {
+			if r.Bool() {
+				id := 1 + r.Intn(6)
+				ops = append(ops, [3]int{0, id, 0})
+				cur = append(cur, id)
+			} else {
+				p, id := r.Intn(len(cur)), 1+r.Intn(6)
+				gone[cur[p]] = true
+				ops = append(ops, [3]int{1, p, id})
+				cur[p] = id
+			}
+		}
+		qs := [][]int{}
+		for _, q := range singles(cur) {
+			if !gone[q[0]] {
+				qs = append(qs, q)
+			}
+		}
+		if len(qs) > 1 {
+			qs = append(qs, []int{qs[0][0], qs[len(qs)-1][0], qs[0][0]})
+		}
+		o.Put(seqCase("random-script", seed, ids, ops, qs, allIdx(len(cur))))
 	}
 	// (e) right-witness reconstruction on inconsistent arguments (must terminate): the reported hang first
 	hs := func(k int) [][]byte {
